@@ -53,7 +53,7 @@ class ApiModel(object):
 
     def op_set_custom(self, rng):
         t = tablegen.any_table(rng) if rng.random() < 0.5 else tablegen.random_table(rng)
-        passed = dict(t)
+        passed = tablegen.as_caller_dict(t, rng)
         self.log.append(["set", dict(t)])
         r = call_guard(lambda: self.sf.set_semantic_constraints(passed))
         if r[0] != "ok":
@@ -67,7 +67,7 @@ class ApiModel(object):
     def op_set_neighbour(self, rng):
         """A table one edit away from the current one (key removed / added / changed)."""
         t = tablegen.neighbour_table(rng, self.model)
-        passed = dict(t)
+        passed = tablegen.as_caller_dict(t, rng)
         self.log.append(["set", dict(t)])
         r = call_guard(lambda: self.sf.set_semantic_constraints(passed))
         if r[0] != "ok":
